@@ -174,6 +174,22 @@ def corpus(rng, quick):
         "Z": {"Type": "Pass", "End": True}}}, dict(big, none=[])))
     out.append(S("nonext-pass", {"StartAt": "A", "States": {"A": {"Type": "Pass"}}}, {"x": 1}))
     out.append(S("nonext-wait", {"StartAt": "W", "States": {"W": {"Type": "Wait", "Seconds": 1}}}, {"x": 1}))
+    # the "long form" of a function call (Resource …:rpcmessage:invoke[.waitForTaskToken] with Parameters.FunctionName /
+    # Payload): its request goes under a correlation id with a suffix, so cancelling it when a sibling fails takes the
+    # canceller's own key; alone, pending while a sibling fails (unhandled / caught / retried), and in a Map iteration
+    INVOKE = "arn:aws:states:local::rpcmessage:invoke"
+    inv = lambda fn, **kw: dict({"Type": "Task", "Resource": INVOKE, "Parameters": {"FunctionName": FN + fn, "Payload": {"x.$": "$.x"}}, "End": True}, **kw)
+    out.append(S("seq-invoke-longform", {"StartAt": "T", "States": {"T": inv("f1")}}, {"x": 1}, {"f1": [("ok",)]}, {"f1": 20}))
+    for tag, extra in (("", {}), ("-catch", {"Catch": [{"ErrorEquals": ["States.ALL"], "Next": "R"}]}),
+                       ("-retry", {"Retry": [{"ErrorEquals": ["States.ALL"], "IntervalSeconds": 1, "MaxAttempts": 1}]})):
+        out.append(S("par-invoke-longform-vs-fail" + tag, {"StartAt": "P", "States": {"P": dict({"Type": "Parallel", "End": True, "Branches": [
+            {"StartAt": "A", "States": {"A": inv("f1")}},
+            {"StartAt": "B", "States": {"B": T("f2")}}]}, **extra), "R": {"Type": "Pass", "End": True}}},
+                     {"x": 1}, {"f1": [("ok",)], "f2": [("err", "Boom", "m")]}, {"f1": 80, "f2": 10}))
+    out.append(S("map-invoke-longform-vs-fail", {"StartAt": "M", "States": {"M": {"Type": "Map", "ItemsPath": "$.items", "End": True,
+        "Iterator": {"StartAt": "C", "States": {"C": {"Type": "Choice", "Choices": [{"Variable": "$.x", "NumericEquals": 2, "Next": "F"}], "Default": "A"},
+                                                 "A": inv("f1"), "F": {"Type": "Fail", "Error": "Bad", "Cause": "item"}}}}}},
+                 {"items": [{"x": 1}, {"x": 2}, {"x": 3}]}, {"f1": [("ok",)]}, {"f1": 60}))
     # definitions the engine cannot interpret at one site (C18's subject; here only the lifecycle / ledger / history laws are
     # evaluated, the reference semantics is not asked): the empty string as a branch's StartAt or as a transition target —
     # an event whose state name is empty is what the engine takes for the start of a new execution
